@@ -1,6 +1,7 @@
 import Spake2Verif.Proofs.RandrangeProofs
 import Spake2Verif.Proofs.PropAuxB2
 import Spake2Verif.Proofs.PropAuxD
+import Spake2Verif.Proofs.GroupShapeTie
 /-!
 # C11 — Secret scalars are sampled without bias and only from the entropy function
 
@@ -360,5 +361,17 @@ theorem randrange_expected_draws_le_two {start stop : Int} (h : start < stop) (K
 draw 2 leaving nothing -/
 example : unbiasedRandrange 0 11 ⟨[0x1f, 0x2b]⟩ = raise .EntropyExhausted ∧
     unbiasedRandrange 0 11 ⟨[0x1f, 0x03]⟩ = .ok (3, ⟨[]⟩) := by decide
+
+/-! ### Tie A for `random_scalar` of both groups -/
+
+/-- `IntegerGroup.random_scalar` is `unbiased_randrange(0, q, entropy_f)` and the Ed25519 `random_scalar` is one draw of
+`32+32` bytes, read big-endian, reduced `% L` (entropy state threaded, nothing else drawn): the translation
+`Gen/GroupShape.lean` of the current source -/
+theorem random_scalar_is_translated :
+    (∀ (P : IntGroupParams) (ent : Entropy),
+      (intGroup P).randomScalar ent = GroupShape.IntShape.random_scalar GroupShapeTie.modelPrims P.p P.q P.g ent) ∧
+    (∀ (c : Curve) (ent : Entropy), (edGroup c).randomScalar ent =
+      GroupShape.EdGroupShape.g_random_scalar GroupShapeTie.modelPrims c.Q c.L c.d c.I (Ed25519.zeroPt c) ent) :=
+  ⟨GroupShapeTie.int_randomScalar_tie, fun c => (GroupShapeTie.ed_codecs_tie c).2.2.1⟩
 
 end Spake2Verif.C11
